@@ -109,6 +109,7 @@ def check_stream(ctx, c):
                         f'{m} does not consume exactly one {G}.random() on every path (draws {len(draws)}, on every path {every}, possibly two {twice}, loops {len(loops)}): '
                         f'equally seeded streams diverge when float/int/bool draws are interleaved differently', where=f'{c}.{m}')
 
+    r125_translation_invariance(ctx, c, ci, G)
     ctx.rule('R12.3', f'seed wiring of {c}: set_seed stores and seeds the same value; reset re-seeds with the current seed; original seed is constructor-only')
     ss = prog.method(c, 'set_seed', inherited=False)
     p = ss.args.args[1].arg
@@ -209,3 +210,81 @@ def no_global_random(ctx):
                 ctx.ob('R12.1b', f'{mname}:{st.func.id}()', False)
                 ctx.finding('R12.1b', f'{mname}:{st.func.id}()', None, st, f'`{short(st)}` is a module-level random function (process-global generator)', module=mod, where=mname)
     ctx.ob('R12.1b', 'scan', True, sample=f'random-module references examined in streams.py/distributions.py: {n}')
+
+
+def _ptype(e, ints):
+    """'int' | 'float' | '?' : Python numeric type of an expression given the int-typed names"""
+    if isinstance(e, ast.Constant):
+        return 'int' if isinstance(e.value, int) and not isinstance(e.value, bool) else 'float' if isinstance(e.value, float) else '?'
+    if isinstance(e, ast.Name):
+        return 'int' if e.id in ints else '?'
+    if isinstance(e, ast.UnaryOp):
+        return _ptype(e.operand, ints)
+    if isinstance(e, ast.BinOp):
+        if isinstance(e.op, ast.Div):
+            return 'float'
+        a, b = _ptype(e.left, ints), _ptype(e.right, ints)
+        if 'float' in (a, b):
+            return 'float'
+        if a == b == 'int':
+            return 'int'
+        return '?'
+    if isinstance(e, ast.Call):
+        f = unparse(e.func)
+        if f in ('math.floor', 'math.ceil', 'int', 'round', 'math.trunc', 'len'):
+            return 'int'
+        if f in ('float', 'math.sqrt', 'math.log', 'math.exp') or f.endswith('.random') or f.endswith('.next_float'):
+            return 'float'
+    return '?'
+
+
+def _coefs(e, names):
+    """linear coefficients {name: k} of an int-typed +/- expression over the given names, or None if not linear"""
+    if isinstance(e, ast.Name):
+        return {e.id: 1} if e.id in names else {}
+    if isinstance(e, ast.Constant):
+        return {}
+    if isinstance(e, ast.UnaryOp) and isinstance(e.op, (ast.USub, ast.UAdd)):
+        c = _coefs(e.operand, names)
+        return None if c is None else {k: (-v if isinstance(e.op, ast.USub) else v) for k, v in c.items()}
+    if isinstance(e, ast.BinOp) and isinstance(e.op, (ast.Add, ast.Sub)):
+        a, b = _coefs(e.left, names), _coefs(e.right, names)
+        if a is None or b is None:
+            return None
+        out = dict(a)
+        for k, v in b.items():
+            out[k] = out.get(k, 0) + (v if isinstance(e.op, ast.Add) else -v)
+        return out
+    if any(isinstance(x, ast.Name) and x.id in names for x in ast.walk(e)):
+        return None
+    return {}
+
+
+def r125_translation_invariance(ctx, c, ci, G):
+    """R12.5: the float part of next_int may depend on the bounds only through their difference"""
+    prog = ctx.prog
+    ctx.rule('R12.5', f'{c}.next_int: the bounds enter floating-point arithmetic only through their (exact, integer) difference; lo is added as an exact integer outside the floor')
+    fn = prog.method(c, 'next_int', inherited=False)
+    lo, hi = fn.args.args[1].arg, fn.args.args[2].arg
+    ints = {lo, hi}
+    problems = []
+    for b in walk_shallow(fn):
+        if isinstance(b, ast.BinOp) and _ptype(b, ints) == 'float':
+            for side in (b.left, b.right):
+                if _ptype(side, ints) == 'int' and any(isinstance(x, ast.Name) and x.id in ints for x in ast.walk(side)):
+                    co = _coefs(side, ints)
+                    if co is None or sum(co.values()) != 0:
+                        problems.append((b, f'`{short(side)}` (not a difference of the bounds) is converted to float in `{short(b, 60)}`'))
+        if isinstance(b, ast.Call) and unparse(b.func) == 'float' and b.args and any(isinstance(x, ast.Name) and x.id in ints for x in ast.walk(b.args[0])):
+            co = _coefs(b.args[0], ints)
+            if co is None or sum(co.values()) != 0:
+                problems.append((b, f'`{short(b)}` converts a bound to float'))
+    rs = [r for r in walk_shallow(fn) if isinstance(r, ast.Return) and r.value is not None]
+    for r in rs:
+        if _ptype(r.value, ints) != 'int':
+            problems.append((r, f'the returned value `{short(r.value, 60)}` is not computed in exact integer arithmetic'))
+    ok = not problems
+    ctx.ob('R12.5', f'{c}.next_int', ok, sample=f'{c}.next_int returns {[short(r.value, 70) for r in rs]}: position-independent float part: {ok}')
+    for (node, msg) in problems[:2]:
+        ctx.finding('R12.5', f'{c}.next_int:float-position', ci, node,
+                    msg + ': for bounds of large magnitude (|lo| >= 2**52) the sum is rounded and integer draws leave the requested range', where=f'{c}.next_int')
